@@ -185,7 +185,8 @@ func (o *opts) node(n ast.Node, sb *strings.Builder) {
 	case *ast.StringLiteral:
 		w("(str ", strconv.Quote(x.Value), ")")
 	case *ast.MultiStringLiteral:
-		w("(tpl ", strconv.Quote(x.Value), ")")
+		// the lexer decodes \` to a bare backtick; the raw form (what the generator and acorn report) escapes it
+		w("(tpl ", strconv.Quote(strings.ReplaceAll(x.Value, "`", "\\`")), ")")
 	case *ast.BooleanLiteral:
 		if x.Value {
 			w("(true)")
